@@ -338,9 +338,22 @@ func c14History(c *ev.Ctx) {
 
 	collisionMutations := 0
 	nextID := uint64(r.Intn(1000) + 1)
+	// half of the histories are observed sparsely: the monitor's own searches and record
+	// listings between two operations of the history are calls into the tree as well, and what
+	// the tree remembers from one call to the next is part of what is under test. In those
+	// histories a name that was searched is likely to be operated on next (look up, then
+	// update or delete), with other operations in between.
+	quiet := r.Bool()
+	obsEvery := 1
+	if quiet {
+		obsEvery = r.Range(2, 6)
+	}
+	sticky := ""
 	for step := 0; step < nops; step++ {
 		name := pool[r.Intn(len(pool))]
-		if target > 0 && len(model) < capacity && r.Chance(3, 4) {
+		if quiet && sticky != "" && r.Bool() {
+			name = sticky
+		} else if target > 0 && len(model) < capacity && r.Chance(3, 4) {
 			// steer towards capacity: pick an absent name
 			for k := 0; k < 5; k++ {
 				if _, ok := model[name]; !ok {
@@ -449,6 +462,7 @@ func c14History(c *ev.Ctx) {
 			if !searchCheck(name) {
 				return
 			}
+			sticky = name
 		case 4: // write out and load back (both fresh-write and in-place paths)
 			if backing != nil && r.Bool() {
 				// a modify session on a tree that was loaded from a file: write back in place, load
@@ -555,6 +569,9 @@ func c14History(c *ev.Ctx) {
 				return
 			}
 		}
+		if quiet && step%obsEvery != 0 && step != nops-1 {
+			continue
+		}
 		if !checkState() {
 			return
 		}
@@ -574,6 +591,9 @@ done:
 	if collisionMutations > 0 {
 		c.Count("histories_ended_at_mutation_of_colliding_pair", 1)
 		goto record
+	}
+	if !checkState() {
+		return
 	}
 	// final full sweep over the pool + never-inserted names
 	for _, n := range pool {
